@@ -14,6 +14,9 @@ From CG Require Import Spec.Warnings.
 From CG Require Import Model.Minimize.
 From CG Require Import Spec.DfaEquiv.
 From CG Require Import Spec.MinimizeSpec.
+From CG Require Import Model.Regex.
+From CG Require Import Model.Subset.
+From CG Require Import Spec.Lang.
 (* add new Require lines above this line *)
 Require Import ExtrOcamlBasic ExtrOcamlString.
 Extraction Language OCaml.
@@ -41,5 +44,19 @@ Separate Extraction
   DfaEquiv.distinct_dec
   DfaEquiv.states
   MinimizeSpec.wfb
+  Regex.from_valid_expr
+  Regex.from_expr
+  Regex.regex_first
+  Regex.regex_follow
+  Regex.arena_consistent
+  Regex.unfold_arena
+  Subset.dfa_from_regex
+  Subset.valid_submap
+  Subset.pick_first
+  Subset.pick_last
+  Subset.pick_script
+  Lang.equiv_dfa_expr
+  Lang.equiv_wdfa_expr
+  Lang.levels_ok
   (* add new roots above this line *)
   Prelude.pow2.
